@@ -187,6 +187,88 @@ macro_rules! explorer {
                     }
                     v
                 }
+                /// count / last / nth / fold / size_hint of the lexer and of its spanned iterator against the
+                /// items of manual iteration (`manual`: every Some step until the first None)
+                fn iterator_methods(&self, manual: &[Step], bound: usize) -> Option<String> {
+                    macro_rules! go {
+                        ($l:expr) => {{
+                            let l = $l;
+                            let items: Vec<String> = manual.iter().map(|m| m.0.clone().unwrap()).collect();
+                            let pairs: Vec<(String, usize, usize)> = manual.iter().map(|m| (m.0.clone().unwrap(), m.1, m.2)).collect();
+                            let n = manual.len();
+                            if n >= bound {
+                                return None; // (a lexer that does not end is C03's business)
+                            }
+                            let c = l.clone().count();
+                            if c != n {
+                                return Some(format!("Lexer::count() = {c}, manual iteration yields {n} items"));
+                            }
+                            let la = l.clone().last().map(|x| format!("{x:?}"));
+                            if la != items.last().cloned() {
+                                return Some(format!("Lexer::last() = {la:?}, manual iteration ends with {:?}", items.last()));
+                            }
+                            let (lo, hi) = l.size_hint();
+                            if lo > n || hi.map_or(false, |h| h < n) {
+                                return Some(format!("Lexer::size_hint() = ({lo}, {hi:?}) but {n} items follow"));
+                            }
+                            let folded: Vec<String> = l.clone().fold(vec![], |mut v, x| {
+                                v.push(format!("{x:?}"));
+                                v
+                            });
+                            if folded != items {
+                                return Some(format!("Lexer::fold visits {folded:?}, manual iteration {items:?}"));
+                            }
+                            for k in 0..=n {
+                                let mut it = l.clone();
+                                let got = it.nth(k).map(|x| format!("{x:?}"));
+                                if got != items.get(k).cloned() {
+                                    return Some(format!("Lexer::nth({k}) = {got:?}, manual iteration gives {:?}", items.get(k)));
+                                }
+                                if k < n && (it.span().start, it.span().end) != (pairs[k].1, pairs[k].2) {
+                                    return Some(format!("after Lexer::nth({k}) the span is {:?}, manual iteration is at {:?}", it.span(), (pairs[k].1, pairs[k].2)));
+                                }
+                                let mut sp = l.clone().spanned();
+                                let got = sp.nth(k).map(|(x, r)| (format!("{x:?}"), r.start, r.end));
+                                if got != pairs.get(k).cloned() {
+                                    return Some(format!("SpannedIter::nth({k}) = {got:?}, manual iteration gives {:?}", pairs.get(k)));
+                                }
+                                let nx = sp.next().map(|(x, r)| (format!("{x:?}"), r.start, r.end));
+                                if k < n && nx != pairs.get(k + 1).cloned() {
+                                    return Some(format!("after SpannedIter::nth({k}) next() = {nx:?}, manual iteration gives {:?}", pairs.get(k + 1)));
+                                }
+                            }
+                            let sc = l.clone().spanned().count();
+                            if sc != n {
+                                return Some(format!("SpannedIter::count() = {sc}, manual iteration yields {n} items"));
+                            }
+                            let sl = l.clone().spanned().last().map(|(x, r)| (format!("{x:?}"), r.start, r.end));
+                            if sl != pairs.last().cloned() {
+                                return Some(format!("SpannedIter::last() = {sl:?}, manual iteration ends with {:?}", pairs.last()));
+                            }
+                            let (lo, hi) = l.clone().spanned().size_hint();
+                            if lo > n || hi.map_or(false, |h| h < n) {
+                                return Some(format!("SpannedIter::size_hint() = ({lo}, {hi:?}) but {n} items follow"));
+                            }
+                            let sf: Vec<(String, usize, usize)> = l.clone().spanned().fold(vec![], |mut v, (x, r)| {
+                                v.push((format!("{x:?}"), r.start, r.end));
+                                v
+                            });
+                            if sf != pairs {
+                                return Some(format!("SpannedIter::fold visits {sf:?}, manual iteration {pairs:?}"));
+                            }
+                            let rev_skip: Vec<(String, usize, usize)> = l.clone().spanned().skip(1).step_by(2).map(|(x, r)| (format!("{x:?}"), r.start, r.end)).collect();
+                            let want: Vec<(String, usize, usize)> = pairs.iter().skip(1).step_by(2).cloned().collect();
+                            if rev_skip != want {
+                                return Some(format!("SpannedIter::skip(1).step_by(2) yields {rev_skip:?}, manual iteration {want:?}"));
+                            }
+                            None
+                        }};
+                    }
+                    match self {
+                        Node::A(l) => go!(l),
+                        Node::B(l) => go!(l),
+                    }
+                }
                 fn spanned_all(self, bound: usize) -> Vec<Step> {
                     let mut v = vec![];
                     match self {
@@ -359,6 +441,11 @@ macro_rules! explorer {
                                 rep.count("transitions", 1);
                                 if manual != sp {
                                     complain(rep, "SPANNED", &hist, format!("spanned() yields {sp:?}, manual iteration {manual:?}"));
+                                }
+                                // ---- every PROVIDED Iterator method an impl may override (count, last, nth, fold,
+                                // size_hint), on the lexer and on the spanned iterator: each is defined by next()
+                                if let Some(bad) = node.iterator_methods(&manual, len + 3) {
+                                    complain(rep, "ITER-METHODS", &hist, bad);
                                 }
                             }
                         }
@@ -674,7 +761,7 @@ fn owned_extras(rep: &mut Report) {
 pub fn run(tier: &str, rep: &mut Report) {
     std::panic::set_hook(Box::new(|_| {}));
     let depth = if tier == "thorough" { 12 } else { 8 };
-    rep.bounds.insert("histories".into(), format!("all sequences of {{next, bump(1) when legal, clone, morph, spanned}} up to depth {depth}, de-duplicated on (definition, token_start, token_end, extras, has a next() answered None before), and the same histories of {{next, bump(1), clone}} driven through the SpannedIter wrapper (its next() must be the wrapped lexer's in every state), for 3 definition pairs (str, bytes, str with look-ahead / end-anchored patterns) x {{ordinary, partial}} x both start definitions x 10-12 sources each (empty, ASCII, multi-byte, ending in a skip, ending mid-token, unmatched bytes, a leading byte order mark, 4-byte characters, a longer text)"));
+    rep.bounds.insert("histories".into(), format!("all sequences of {{next, bump(1) when legal, clone, morph, spanned}} up to depth {depth}, de-duplicated on (definition, token_start, token_end, extras, has a next() answered None before), and the same histories of {{next, bump(1), clone}} driven through the SpannedIter wrapper (its next() must be the wrapped lexer's in every state), in every state count / last / nth(k) for every k / fold / size_hint / skip+step_by of the lexer and of its spanned iterator against manual iteration, for 3 definition pairs (str, bytes, str with look-ahead / end-anchored patterns) x {{ordinary, partial}} x both start definitions x 10-12 sources each (empty, ASCII, multi-byte, ending in a skip, ending mid-token, unmatched bytes, a leading byte order mark, 4-byte characters, a longer text)"));
     let str_sources: [&str; 12] = ["", "ab 12", "éa€b", "abc  ", "ab..", "a!b", "ab. x9", "BEG 1 BEGI", "\u{feff}ab 1", "a😊b 😊", "ab 12 cd 345 é€ ef.. 6", "\u{feff}"];
     for s in str_sources {
         strs::explore(s.as_bytes(), depth, rep);
